@@ -818,6 +818,12 @@ func (s *Sched) finish() {
 		time.Sleep(s.cfg.DrainTime)
 	}
 	synctest.Wait()
+	// a last look at the system from inside the bubble (timers of the
+	// system under test can only be observed from here)
+	if d, ok := s.env.(interface{ AfterDrain(s *Sched) }); ok {
+		d.AfterDrain(s)
+		synctest.Wait()
+	}
 	s.collect()
 	x.Elapsed = s.Now()
 	x.Hash = s.hash
